@@ -99,6 +99,10 @@ def mon_C02(ctx, ops, states):
     bad = []
     banned = set()
     tainted = False
+    # the launch in progress, from the history of CALLS (the property speaks of "a launch from patch n reported as failed"
+    # and "the process ended after launch start for n without any launch report", not of a stored marker): set by a launch
+    # start that hands a patch to the engine, cleared by a launch report
+    boot = None
     for i, o, pre, st, cfg in w.steps():
         k = o['kind']
         if k == 'dmg' and o['what'] in ('pj', 'sj'):
@@ -108,19 +112,24 @@ def mon_C02(ctx, ops, states):
         if k == 'init' and st['out'] == 'true':
             if state_reset(o, pre, o['rel']):
                 banned = set()
-            else:
-                cb = pstate(pre)['cb']
-                if cb:
-                    banned.add(cb['num'])
+            elif boot is not None:
+                banned.add(boot)
+            boot = None
         if k == 'failure' and cfg is not None:
             if state_reset(o, pre, cfg['rel']):
                 banned = set()
-            else:
-                cb = pstate(pre)['cb']
-                if cb:
-                    banned.add(cb['num'])
+            elif boot is not None:
+                banned.add(boot)
+            boot = None
+        if k == 'success' and cfg is not None:
+            boot = None
         if cfg is not None and k not in ('init', 'kill', 'dmg', 'auto') and state_reset(o, pre, cfg['rel']):
             banned = set()
+            boot = None
+        if k == 'start' and cfg is not None:
+            hn = handed_out(o, pre, st)
+            if hn is not None:
+                boot = hn
         n = handed_out(o, pre, st)
         if n is not None and n in banned:
             bad.append((i, 'C02: patch %d handed out after it was reported/detected as failed' % n))
@@ -262,6 +271,8 @@ def mon_C14(ctx, ops, states):
                 bad.append((i, 'C14: second init reported success'))
             if (st['sj'], st['pj'], st['arts'], st['junk']) != (pre['sj'], pre['pj'], pre['arts'], pre['junk']):
                 bad.append((i, 'C14: second init changed the disk'))
+            elif st.get('dls') != pre.get('dls'):
+                bad.append((i, 'C14: second init changed the download directory: %s -> %s' % (pre.get('dls'), st.get('dls'))))
     return bad + mon_C20(ctx, ops, states)
 
 
